@@ -95,8 +95,9 @@ def plain : JsExpr → PE
 def JsName (g : Bytes) : Prop := JsIdent g ∧ isReserved g = false ∧ g ≠ sOptData ∧ g ≠ sOptIj
 
 /-- the level of the grammar the text of an expression stands at: 0 a MemberExpression / CallExpression that may be
-    followed by `.name`; 1 a UnaryExpression (a number — `5.length` is no JavaScript —, `-5`, `!(a)`); 2 an
-    EqualityExpression (`a!= null`); 3 a ConditionalExpression (`(g == null) ? null : r`) -/
+    followed by `.name`; 1 a UnaryExpression (a number — `5.length` is no JavaScript —, `-5`, `!(a)`); 3 a
+    ConditionalExpression (`(g == null) ? null : r`).  (Level 2, the EqualityExpression `a!= null` of isNonnull, is gone:
+    soyjs a5155c6 writes `(a != null)`, a primary.) -/
 def lv : JsExpr → Nat
   | .num _ => 1
   | .not _ => 1
@@ -109,11 +110,11 @@ def isNegNum : JsExpr → Bool
 
 /-- the `JsExpr` whose text (the concrete syntax of Spec/JsSemRef) the grammar reads as that `JsExpr`.  What is
     excluded, and what JavaScript reads instead:
-    * `neg a` with `a` = `x!= null` or a bare `(g == null) ? null : r`:  `(- x!= null)` is `(-x) != null`
-    * `member x k`, `index x i` with `x` a number, `!(a)`, `a!= null` or a bare conditional:
-      `5.k` is a lexical error, `!(a).k` is `!((a).k)`, `a!= null.k` is `a != (null.k)`  (`call1 .length x` is
+    * `neg a` with `a` a bare `(g == null) ? null : r`  (`toAst` wraps every null-safe reference in parentheses)
+    * `member x k`, `index x i` with `x` a number, `!(a)` or a bare conditional:
+      `5.k` is a lexical error, `!(a).k` is `!((a).k)`  (`call1 .length x` is
       written `(x).length` — soyjs 0a4b4eb — and has no such restriction)
-    * `call1 .nonNull a` and the `g` of `guard g r` with `a`, `g` = `x!= null` or a bare conditional
+    * `call1 .nonNull a` and the `g` of `guard g r` with `a`, `g` a bare conditional
     * `member x "length"`: its text `x.length` is read as `call1 .length x`, as `(x).length` is (the two have the
       same meaning wherever both are defined)
     * `index x i` with `i < 0` (`toAst` never makes one), `paren` of a negative number (the text of `neg`)
@@ -3208,6 +3209,12 @@ example : jsParseFile (printPieces (renderFunc false 0 ⟨b!"ns.sub.t", true, ex
 example : jsParseExpr b!"((opt_data.x) + (1)" = none := by decide +kernel            -- unbalanced
 example : jsParseExpr b!"'abc" = none := by decide +kernel                           -- unterminated string
 example : jsParseExpr b!"5.length" = none := by decide +kernel                       -- `{length(5)}` before soyjs 0a4b4eb: no engine reads it
+/-- isNonnull since soyjs a5155c6: a primary, also under a minus and inside another isNonnull -/
+example : printPieces (render (.neg (.call1 .nonNull (.call1 .nonNull (.optData b!"x"))))) = b!"(- ((opt_data.x != null) != null))" := by
+  decide
+example : jsParseExpr b!"(- ((opt_data.x != null) != null))" = some (.neg (.call1 .nonNull (.call1 .nonNull (.optData b!"x")))) :=
+  jsparse_render_expr (.neg (.call1 .nonNull (.call1 .nonNull (.optData b!"x"))))
+    (by simp only [Img, lv]; exact ⟨⟨⟨⟨_, _, rfl, rfl, by decide⟩, by omega⟩, by omega⟩, by omega⟩)
 example : jsParseExpr b!"(5).length" = some (.call1 .length (.num 5)) :=                    -- … and since
   jsparse_render_expr (.call1 .length (.num 5)) (by simp [Img])
 example : jsParseExpr b!"soy.$$augmentMap(opt_data, {2nd: 1})" = none := by decide +kernel
